@@ -87,8 +87,12 @@ func (x *Exec) topEnv(st *State, where string) *Env {
 	}
 	if x.con != nil {
 		for _, c := range x.con.Captures {
-			// a capture that did not happen on this path denotes the empty slice
-			env.vars[c.Name] = Slice{Off: "0", Len: "0", Cap: "0"}
+			// a capture that did not happen on this path denotes the empty slice / an undefined scalar
+			if c.Kind == "scalar" {
+				env.vars[c.Name] = Sc{x.s.declare("undef.capture:"+c.Name, "Int"), "Int"}
+			} else {
+				env.vars[c.Name] = Slice{Off: "0", Len: "0", Cap: "0"}
+			}
 		}
 	}
 	for n, v := range st.caps {
